@@ -124,6 +124,8 @@ Qed.
 Lemma byte_list_app a b : byte_list a -> byte_list b -> byte_list (a ++ b).
 Proof. unfold byte_list. intros. apply Forall_app. split; assumption. Qed.
 
+Lemma N_lt_0_256 : 0 < 256. Proof. reflexivity. Qed.
+
 Theorem fields_roundtrip fs : forall vs acc used,
   wf_fspecs used fs = true -> wf_fields fs vs -> (used <= 8)%nat ->
   acc < 256 -> acc mod 2 ^ N.of_nat (8 - used) = 0 ->
@@ -144,7 +146,7 @@ Proof.
       cbn [wf_fspecs] in Hs. apply andb_true_iff in Hs as [Hu Hs]. apply Nat.eqb_eq in Hu. subst used.
       destruct vs as [|v vs]; [contradiction|]. destruct Hv as [Hf Hv].
       destruct v; try contradiction. cbn in Hf.
-      destruct (IH vs 0 0%nat Hs Hv ltac:(lia) ltac:(lia) ltac:(reflexivity)) as (bs & sz & E & Hsz & Hb & D & _).
+      destruct (IH vs 0 0%nat Hs Hv (Nat.le_0_l 8) N_lt_0_256 eq_refl) as (bs & sz & E & Hsz & Hb & D & _).
       exists (be size n ++ bs), (N.of_nat size + sz). cbn [enc_fields]. rewrite E.
       repeat split.
       * rewrite len_app, len_be. lia.
@@ -165,23 +167,25 @@ Proof.
       cbn [enc_fields]. fold s. fold acc'.
       destruct partial.
       * (* run continues *)
-        assert (Hs' : (8 - (bit + bits) = 8 - bits - bit)%nat) by lia.
-        destruct (IH vs acc' (bit + bits)%nat Hs4 Hv ltac:(lia) Hlt) as (bs & sz & E & Hsz & Hb & _ & D).
-        { rewrite Hs'. exact Hm0. }
-        destruct (D ltac:(lia)) as (B & bs' & -> & HB & Dd).
+        assert (Hs' : (8 - (bit + bits) = 8 - bits - bit)%nat) by (clear - Hs3; lia).
+        assert (Hle8 : (bit + bits <= 8)%nat) by exact Hs3.
+        assert (Hm0' : acc' mod 2 ^ N.of_nat (8 - (bit + bits)) = 0) by (rewrite Hs'; exact Hm0).
+        destruct (IH vs acc' (bit + bits)%nat Hs4 Hv Hle8 Hlt Hm0') as (bs & sz & E & Hsz & Hb & _ & D).
+        assert (Hpos' : (0 < bit + bits)%nat) by (clear - Hs2; lia).
+        destruct (D Hpos') as (B & bs' & -> & HB & Dd).
         rewrite Hs' in HB. fold s in HB.
         exists (B :: bs'), sz. rewrite E. repeat split; try assumption.
-        -- intros ->. exfalso.
-           (* used = 0: then acc = 0 and the run starts here; still produces B :: bs' — handled below *)
-           clear - Hs1. lia.
+        -- intros Hu0 rest Hr. cbn [dec_fields app]. fold s. rewrite N.shiftr_div_pow2, HB, Hval.
+           rewrite (Dd rest (rest_ok_tail _ _ _ Hr)). reflexivity.
         -- intros Hpos. exists B, bs'. repeat split.
-           ++ apply (div_div_pow B acc' (8 - bits - bit) (8 - used)) in HB; [|lia]. rewrite HB. exact Hhigh.
-           ++ intros rest Hr. cbn [dec_fields app]. fold s. rewrite HB, Hval.
+           ++ assert (Hle : (8 - bits - bit <= 8 - used)%nat) by (clear - Hs1; lia).
+              apply (div_div_pow B acc' (8 - bits - bit) (8 - used) HB) in Hle. rewrite Hle. exact Hhigh.
+           ++ intros rest Hr. cbn [dec_fields app]. fold s. rewrite N.shiftr_div_pow2, HB, Hval.
               rewrite (Dd rest (rest_ok_tail _ _ _ Hr)). reflexivity.
       * (* closes the byte *)
-        destruct (IH vs 0 0%nat Hs4 Hv ltac:(lia) ltac:(lia) ltac:(reflexivity)) as (bs & sz & E & Hsz & Hb & D & _).
+        destruct (IH vs 0 0%nat Hs4 Hv (Nat.le_0_l 8) N_lt_0_256 eq_refl) as (bs & sz & E & Hsz & Hb & D & _).
         exists (acc' :: bs), (1 + sz). rewrite E. repeat split.
-        -- unfold len in *. cbn [length]. lia.
+        -- rewrite Hsz. clear. unfold len. cbn [length]. lia.
         -- constructor; assumption.
         -- intros _ rest Hr. cbn [dec_fields app]. fold s. rewrite N.shiftr_div_pow2, Hval.
            rewrite (D eq_refl rest (rest_ok_tail _ _ _ Hr)). reflexivity.
@@ -191,7 +195,7 @@ Proof.
     + (* FPad *)
       cbn [wf_fspecs] in Hs. apply andb_true_iff in Hs as [Hu Hs]. apply Nat.eqb_eq in Hu. subst used.
       cbn in Hv.
-      destruct (IH vs 0 0%nat Hs Hv ltac:(lia) ltac:(lia) ltac:(reflexivity)) as (bs & sz & E & Hsz & Hb & D & _).
+      destruct (IH vs 0 0%nat Hs Hv (Nat.le_0_l 8) N_lt_0_256 eq_refl) as (bs & sz & E & Hsz & Hb & D & _).
       exists (repeat 0 n ++ bs), (N.of_nat n + sz). cbn [enc_fields]. rewrite E. repeat split.
       * rewrite len_app, len_repeat. lia.
       * apply byte_list_app; [|exact Hb]. apply Forall_forall. intros y Hy. apply repeat_spec in Hy. subst. lia.
@@ -203,7 +207,7 @@ Proof.
       cbn [wf_fspecs] in Hs. apply andb_true_iff in Hs as [Hu Hs]. apply Nat.eqb_eq in Hu. subst used.
       destruct vs as [|v vs]; [contradiction|]. destruct Hv as [Hf Hv].
       destruct v; try contradiction. cbn in Hf. destruct Hf as [Hl Hbl].
-      destruct (IH vs 0 0%nat Hs Hv ltac:(lia) ltac:(lia) ltac:(reflexivity)) as (bs' & sz & E & Hsz & Hb & D & _).
+      destruct (IH vs 0 0%nat Hs Hv (Nat.le_0_l 8) N_lt_0_256 eq_refl) as (bs' & sz & E & Hsz & Hb & D & _).
       exists (bs ++ bs'), (N.of_nat n + sz). cbn [enc_fields]. rewrite E. repeat split.
       * rewrite len_app. unfold len in *. lia.
       * apply byte_list_app; assumption.
@@ -215,7 +219,7 @@ Proof.
       cbn [wf_fspecs] in Hs. apply andb_true_iff in Hs as [Hu Hs]. apply Nat.eqb_eq in Hu. subst used.
       destruct vs as [|v vs]; [contradiction|]. destruct Hv as [Hf Hv].
       destruct v; try contradiction. cbn in Hf. destruct Hf as [Hl Hbl].
-      destruct (IH vs 0 0%nat Hs Hv ltac:(lia) ltac:(lia) ltac:(reflexivity)) as (bs' & sz & E & Hsz & Hb & D & _).
+      destruct (IH vs 0 0%nat Hs Hv (Nat.le_0_l 8) N_lt_0_256 eq_refl) as (bs' & sz & E & Hsz & Hb & D & _).
       exists (be 2 (len ns) ++ flat_map (be e) ns ++ bs'), (2 + len ns * N.of_nat e + sz).
       cbn [enc_fields]. rewrite E. repeat split.
       * rewrite !len_app, len_be, len_flat_be. lia.
@@ -231,7 +235,7 @@ Proof.
       cbn [wf_fspecs] in Hs. apply andb_true_iff in Hs as [Hu Hs]. apply Nat.eqb_eq in Hu. subst used.
       destruct vs as [|v vs]; [contradiction|]. destruct Hv as [Hf Hv].
       destruct v; try contradiction. cbn in Hf. destruct Hf as [Hl Hbl].
-      destruct (IH vs 0 0%nat Hs Hv ltac:(lia) ltac:(lia) ltac:(reflexivity)) as (bs' & sz & E & Hsz & Hb & D & _).
+      destruct (IH vs 0 0%nat Hs Hv (Nat.le_0_l 8) N_lt_0_256 eq_refl) as (bs' & sz & E & Hsz & Hb & D & _).
       exists (be 2 (len bs) ++ bs ++ bs'), (2 + len bs + sz).
       cbn [enc_fields]. rewrite E. repeat split.
       * rewrite !len_app, len_be. lia.
@@ -245,7 +249,7 @@ Proof.
       cbn [wf_fspecs] in Hs. apply andb_true_iff in Hs as [Hu Hs]. apply Nat.eqb_eq in Hu. subst used.
       destruct vs as [|v vs]; [contradiction|]. destruct Hv as [Hf Hv].
       destruct v; try contradiction. cbn in Hf. destruct Hf as (Hn & Hl & Hbl).
-      destruct (IH vs 0 0%nat Hs Hv ltac:(lia) ltac:(lia) ltac:(reflexivity)) as (bs' & sz & E & Hsz & Hb & D & _).
+      destruct (IH vs 0 0%nat Hs Hv (Nat.le_0_l 8) N_lt_0_256 eq_refl) as (bs' & sz & E & Hsz & Hb & D & _).
       exists (be 2 nbits ++ bs ++ bs'), (2 + bitarr_nbytes nbits + sz).
       cbn [enc_fields]. rewrite E. repeat split.
       * rewrite !len_app, len_be. lia.
